@@ -200,7 +200,7 @@ func (c *Case) sanitize() {
 	clamp(&c.QueueCap, 0, 1024)
 	clamp(&c.Submitters, 1, 64)
 	clamp(&c.PreUs, 0, 100000)
-	clamp(&c.HoldUs, 0, 2000000)
+	clamp(&c.HoldUs, 0, 15000000)
 	clamp(&c.SettleUs, 0, 100000)
 	for i := range c.Jobs {
 		clamp(&c.Jobs[i].Sub, 0, c.Submitters-1)
@@ -859,11 +859,16 @@ func TestC19(t *testing.T) {
 		q, th = 800, 6000
 	}
 	if stat.ReplayPath() == "" && os.Getenv("VERIF_ONLY") == "" && !raceEnabled {
-		// Release while every worker is busy for more than a second and the dispatcher holds a
+		// Release while every worker is busy for more than five seconds (twelve in the thorough
+		// tier) and the dispatcher holds a
 		// further job: it must keep waiting (no give-up timer may end it early)
 		pinned := map[string]Case{
-			"release-waits-longer-than-a-second": {Workers: 2, QueueCap: 4, Submitters: 1, Release: "running", HoldUs: 1300000,
+			// the dispatcher holds a further job (it is not listening for the stop signal)
+			"release-while-dispatcher-holds-a-job": {Workers: 2, QueueCap: 4, Submitters: 1, Release: "running", HoldUs: 1300000,
 				Phase2: []P2{{Gated: true}, {Gated: true}, {Dur: 10}, {Dur: 10}}},
+			// the dispatcher is idle and takes the stop signal at once; the workers stay busy
+			"release-waits-for-long-jobs": {Workers: 2, QueueCap: 4, Submitters: 1, Release: "running", HoldUs: map[bool]int{false: 5300000, true: 12000000}[stat.Tier() == "thorough"],
+				Phase2: []P2{{Gated: true}, {Gated: true}}},
 		}
 		stat.Pinned(t, st, "pool", pinned, func(c Case) *stat.Failure {
 			st.CaseJSON(c, true, "pinned-long-release")
